@@ -1,12 +1,133 @@
 (** C18 — UnixFS metadata round-trips.
     ONLY the property theorems, each closed by [exact] of a lemma of
-    [proofs/P_C18.v], with [Print Assumptions] beneath it. *)
-From Coq Require Import List ZArith Bool.
-From V Require Import lib.Verdict lib.GoInt lib.Varint lib.Pb lib.UnixFsPb gen.Gen_C18 model.M_C18 proofs.P_C18.
+    [proofs/P_C18_perm.v] / [proofs/P_C18.v], with [Print Assumptions] beneath it.
+
+    Model: [model/M_C18.v] = unixfs.FSNode over the protobuf message model
+    [lib/UnixFsPb.v] (tied to /repo by the correspondence check of ./check C18,
+    byte for byte); the permission shuffles are [gen/Gen_C18.v], translated from
+    files/util.go by go2coq on every run — a changed Go body is re-proved here
+    or the build fails.  A Go time.Time is the pair (Unix(), Nanosecond()). *)
+From Coq Require Import List ZArith Bool Lia.
+From V Require Import lib.Verdict lib.GoInt lib.Varint lib.Pb lib.UnixFsPb gen.Gen_C18 model.M_C18
+  proofs.P_C18_perm proofs.P_C18.
 Import ListNotations.
 Open Scope Z_scope.
 
+(** All 4096 unix permission words survive unix -> FileMode -> unix, their
+    FileMode image is the textbook bit layout [spread], and it has permission
+    bits only.  (Exhaustive evaluation of the translated code, lifted.) *)
 Theorem C18_perm_roundtrip : forall p, 0 <= p < 4096 ->
-  ModePermsToUnixPerms (UnixPermsToModePerms p) = p.
-Proof. exact unix_of_mode_of_unix. Qed.
+  ModePermsToUnixPerms (UnixPermsToModePerms p) = p /\
+  UnixPermsToModePerms p = spread p /\
+  Z.land (UnixPermsToModePerms p) perm_mask = UnixPermsToModePerms p.
+Proof. exact perm_word. Qed.
 Print Assumptions C18_perm_roundtrip.
+
+(** For EVERY os.FileMode value [m] (every integer, in fact): FileMode -> unix ->
+    FileMode keeps exactly the permission bits ModePerm|Setuid|Setgid|Sticky,
+    and the unix word has 12 bits. *)
+Theorem C18_mode_roundtrip : forall m,
+  UnixPermsToModePerms (ModePermsToUnixPerms m) = Z.land m perm_mask /\
+  0 <= ModePermsToUnixPerms m < 4096.
+Proof. intro m. split; [apply mode_of_unix_of_mode|apply unix_perms_range]. Qed.
+Print Assumptions C18_mode_roundtrip.
+
+(** The 20 extended bits survive both permission setters; SetExtendedMode stores
+    the low 20 bits of its argument and leaves Mode() alone. *)
+Theorem C18_extended_preserved : forall d u x,
+  extended_mode (set_mode_unix u d) = extended_mode d /\
+  extended_mode (set_extended_mode x d) = Z.land x 1048575 /\
+  mode_of (set_extended_mode x d) = mode_of d.
+Proof. exact extended_preserved. Qed.
+Print Assumptions C18_extended_preserved.
+
+(** SetMode(m), GetBytes, FSNodeFromBytes, Mode(): the same permission bits, on
+    any well-formed node, whatever its type and whatever extended bits it has. *)
+Theorem C18_mode_after_parse : forall d m bs,
+  wf_data d -> initialized d = true ->
+  encode_data (set_mode m d) = Some bs ->
+  exists d', decode_data bs = Some d' /\
+             Z.land (mode_of d') perm_mask = Z.land m perm_mask /\
+             extended_mode d' = extended_mode d.
+Proof. exact mode_after_parse. Qed.
+Print Assumptions C18_mode_after_parse.
+
+(** SetModTime(t), GetBytes, FSNodeFromBytes, ModTime(): the same instant for
+    every int64 second count and every nanosecond 0..999999999; the zero Time
+    comes back as the zero Time and is the only one that is stored as "unset". *)
+Theorem C18_mtime_roundtrip : forall d t bs,
+  wf_data d -> initialized d = true -> wf_gtime t ->
+  encode_data (set_mod_time t d) = Some bs ->
+  exists d', decode_data bs = Some d' /\
+             mod_time d' = (if is_zero t then zero_time else t) /\
+             is_zero (mod_time d') = is_zero t /\
+             (is_zero t = true <-> d_mtime d' = None).
+Proof. exact mtime_roundtrip. Qed.
+Print Assumptions C18_mtime_roundtrip.
+
+(** File sizes: after ANY sequence of operations on a NewFSNode(t) — including
+    serialisation round trips anywhere in the sequence — FileSize() is the
+    content length (inline data + child block sizes, in uint64) for files and
+    raw nodes as long as nobody called UpdateFilesize with a non-zero delta, and
+    len(Data) for symlinks. *)
+Theorem C18_size_accessors : forall t ops s d,
+  - two31 <= t < two31 -> Forall wf_op ops ->
+  spec_run (spec_init (INew t)) ops = Some s -> run (new_fsnode t) ops = Some d ->
+  (s_sized s = true -> (t = TFile \/ t = TRaw) ->
+     file_size d = to_u64 (s_datalen s + sum_list (s_blocks s))) /\
+  (t = TSymlink -> file_size d = s_datalen s) /\
+  s_datalen s = blen (get_data d) /\ s_blocks s = d_blocksizes d.
+Proof. exact size_accessors. Qed.
+Print Assumptions C18_size_accessors.
+
+(** The protobuf layer: what GetBytes writes, FSNodeFromBytes reads back
+    unchanged, for every well-formed message. *)
+Theorem C18_pb_roundtrip : forall d bs,
+  wf_data d -> encode_data d = Some bs -> decode_data bs = Some d.
+Proof. exact decode_encode. Qed.
+Print Assumptions C18_pb_roundtrip.
+
+(** Full strength: for EVERY constructor, EVERY list of operations (setters,
+    content edits, serialisation round trips in any position, any length) whose
+    arguments fit their Go types, the node exists, serialises, parses back to
+    itself, and every accessor the property mentions reads what the abstract
+    metadata [spec_run] says: the permission bits last set, the extended bits
+    last set, the instant last set (zero = unset), and the content length. *)
+Theorem C18_history : forall i ops s,
+  wf_init i -> Forall wf_op ops -> spec_run (spec_init i) ops = Some s ->
+  exists d0 d bs,
+    init_node i = Some d0 /\ run d0 ops = Some d /\
+    meets s (view_of d) = true /\
+    encode_data d = Some bs /\ decode_data bs = Some d.
+Proof. exact history_refines. Qed.
+Print Assumptions C18_history.
+
+(** ---------- non-vacuity ---------- *)
+(** the hypotheses of C18_history / C18_size_accessors are met by a real history *)
+Example C18_history_example :
+  let ops := [OSetExtMode 1048575; OSetMode 2161115647 (* ModeDir|setuid|setgid|sticky|0777 *);
+              OSetData (Some [1; 2; 3]); OAddBlock 262144; ORoundTrip;
+              OSetModTime (-1, 999999999); OAddBlock 18446744073709551615; ORemoveBlock 0%nat;
+              ORoundTrip] in
+  wf_init (INew 2) /\ Forall wf_op ops /\
+  exists s, spec_run (spec_init (INew 2)) ops = Some s /\
+            s_perm s = 13631999 /\ s_ext s = 1048575 /\ s_time s = (-1, 999999999) /\
+            s_sized s = true /\ to_u64 (s_datalen s + sum_list (s_blocks s)) = 2.
+Proof.
+  cbv zeta. split; [cbn [wf_init]; unfold two31; lia|]. split.
+  - repeat constructor; cbn [wf_op wf_optdata in_u64 wf_gtime fst snd blen length Z.of_nat];
+      unfold two64, two63; try lia.
+  - eexists. split; [reflexivity|]. repeat split.
+Qed.
+
+(** a node satisfying the hypotheses of the single-step theorems *)
+Example C18_wf_example : wf_data (new_fsnode 1) /\ initialized (new_fsnode 1) = true /\
+  wf_gtime (-62135596800, 1) /\ is_zero (-62135596800, 1) = false /\
+  encode_data (set_mod_time (-62135596800, 1) (set_mode 2147484141 (new_fsnode 1))) =
+    Some [8; 1; 24; 0; 56; 237; 3; 66; 16; 8; 128; 164; 238; 219; 144; 254; 255; 255; 255; 1; 21; 1; 0; 0; 0].
+Proof.
+  split; [|split; [reflexivity|split; [|split; reflexivity]]].
+  - unfold new_fsnode. apply wf_update_filesize, wf_with_type; [apply wf_empty|].
+    cbn. unfold two31. lia.
+  - unfold wf_gtime, two63. cbn. lia.
+Qed.
